@@ -103,6 +103,8 @@ def expected(doc):
             if t in ELEMENT_TYPES:
                 labels = rec._attributes.get(pm.PROV_LABEL) or set()
                 elements.append({"uri": rec.identifier.uri, "type": t, "ident": str(rec.identifier), "labels": [str(l) for l in labels],
+                                 # a prov:label that is itself a name for the element's URI *is* the identifier: shown once
+                                 "labels_naming_self": [str(l) for l in labels if getattr(l, "uri", None) == rec.identifier.uri],
                                  "others": [(str(a), value_text(v)) for a, v in others]})
             else:
                 kind = t[len(P):]
@@ -185,6 +187,7 @@ def check_render(doc, opt, ctx):
                 shown = squash("".join(drawn_text(n)))
                 if opt["use_labels"] and e["labels"]:
                     label_ok |= any(squash(l) in shown for l in e["labels"]) and squash(e["ident"]) in shown
+                    label_ok |= any(shown == squash(l) for l in e["labels_naming_self"])
                 else:
                     label_ok |= shown == squash(e["ident"])
             if not label_ok:
